@@ -346,3 +346,72 @@ def byte_panics(ctx, config="all"):
         rep.ok("byte|panics-iff-index>=BYTES", where, "bounds check against a slice of length BYTES in %d configurations" % len(ctx.cfgs()))
     rep.analysed = {"build_config": config}
     return rep
+
+
+# ---------------------------------------------------------------------------------------------------------------
+FIXED_LENGTH_DECODERS = {
+    # decoder of a fixed-width format -> byte-form parser it hands the input slice to
+    "crate::support::ssz::<impl ssz::decode::Decode for %s>::from_ssz_bytes" % U: "try_from_le_slice",
+    "<crate::support::serde::ByteVisitor<BITS, LIMBS> as serde_core::de::Visitor<'_>>::visit_bytes": "try_from_be_slice",
+}
+
+
+def fixed_length(ctx, config="all"):
+    """R-GUARD/fixed-length: decoders of fixed-width formats reject every input whose length is not BYTES.
+
+    Decided on the interval interpretation of the decoder body, per configuration: at the call that hands the input
+    slice to try_from_{le,be}_slice, the interval of the slice's length must be the single point BYTES.  A decoder that
+    only rejects over-long input leaves [0, BYTES] there: truncated input is then accepted and zero-extended."""
+    from . import total_rule
+    rep = Report("R-GUARD/fixed-length", "decoders of fixed-width formats (SSZ uintN, serde binary) hand the byte-form "
+                 "parser a slice whose length is exactly BYTES in every configuration (interval of the slice length at "
+                 "the call): truncated input is an error, not a zero-extended value")
+    prog = ctx.prog(config)
+    T = total_rule.totality(ctx, config)
+    bytes_cfg = prog.const_cfg.get(ir.BYTES_CONST, {})
+    n = 0
+    for k, parser in FIXED_LENGTH_DECODERS.items():
+        b = prog.bodies.get(k)
+        short = k.replace("crate::", "").replace("<BITS, LIMBS>", "")
+        if b is None:
+            if config.startswith("all"):
+                rep.violation("missing:" + short, "", "decoder %s not found (anchor moved): rule cannot be applied" % short)
+            continue
+        where = "%s:%s" % (b["file"], b["line"])
+        bad, seen_call = [], False
+        for cfg in ctx.cfgs():
+            want = bytes_cfg.get(cfg)
+            if want is None:
+                continue
+            a = T.ai(k, cfg)
+            v = a.v
+            for bi, t in v.calls():
+                nm = ir.callee_name(t["fn"]) or ""
+                if not nm.endswith("::" + parser) or not t["args"]:
+                    continue
+                seen_call = True
+                st = a.state_before_term(bi)
+                if st is None:
+                    continue
+                arg = t["args"][0]
+                lk = a.len_key(arg["l"], st) if arg.get("o") in ("copy", "move") and not arg["p"] else None
+                iv = None
+                if lk is not None:
+                    iv = (lk[1], lk[1]) if lk[0] == "const" else a.get(st, lk)
+                n += 1
+                if iv is None or iv != (want, want):
+                    bad.append((cfg, iv, want))
+        if not seen_call:
+            rep.violation(short + "|parser", where, "%s no longer calls %s: rule cannot be applied" % (short, parser))
+        elif bad:
+            cfg, iv, want = bad[0]
+            rep.violation(short + "|length", where, "%s passes a slice of length %s to %s where the format's width is %d "
+                          "bytes (configuration (%d,%d), +%d more): input shorter than the fixed width is accepted and "
+                          "zero-extended instead of being rejected as truncated" % (
+                              short, "[%d, %d]" % iv if iv else "unknown", parser, want, cfg[0], cfg[1], len(bad) - 1))
+        else:
+            rep.ok(short + "|length", where, "slice length is exactly BYTES at the %s call in %d configurations" % (
+                parser, len(ctx.cfgs())))
+    rep.analysed = {"build_config": config, "length_evaluations": n}
+    rep.floor("length_evaluations", n, 2 * len(ctx.cfgs()) if config.startswith("all") else 0)
+    return rep
